@@ -124,3 +124,91 @@ def observe_construct(recipe):
     except Exception as e:  # noqa
         return {"err": err_name(e)}, None
     return canon_node(n), n
+
+
+def run_graph_ops(recipe, ops, after=None):
+    """Mirror of the driver's `graph` op on the real library.  Returns (steps, graph)."""
+    import warnings
+    steps = []
+    try:
+        with warnings.catch_warnings():
+            warnings.simplefilter("ignore")
+            g = impl_construct(recipe)
+    except Exception as e:  # noqa
+        return [{"err": err_name(e)}], None
+    steps.append(canon_node(g))
+    if after is not None:
+        after("construct", g, steps[-1])
+    for op in ops:
+        if op == "infer":
+            err = None
+            try:
+                with quiet(), warnings.catch_warnings():
+                    warnings.simplefilter("ignore")
+                    g.infer_types()
+            except Exception as e:  # noqa
+                err = err_name(e)
+            steps.append({"err": err, "g": canon_node(g)})
+        elif op == "check":
+            try:
+                with warnings.catch_warnings():
+                    warnings.simplefilter("ignore")
+                    r = g._check_types()
+                steps.append({"r": bool(r)})
+            except Exception as e:  # noqa
+                steps.append({"err": err_name(e)})
+        elif op in ("dict_rt", "file_rt"):
+            import nir
+            try:
+                with warnings.catch_warnings():
+                    warnings.simplefilter("ignore")
+                    if op == "dict_rt":
+                        g = nir.NIRGraph.from_dict(g.to_dict())
+                    else:
+                        g = file_roundtrip(g)
+                steps.append({"err": None, "g": canon_node(g)})
+            except Exception as e:  # noqa
+                steps.append({"err": err_name(e), "g": canon_node(g)})
+        else:
+            raise ValueError(op)
+        if after is not None:
+            after(op, g, steps[-1])
+    return steps, g
+
+
+def file_roundtrip(g, target="bytesio"):
+    import io
+    import nir
+    bio = io.BytesIO()
+    nir.write(bio, g)
+    bio.seek(0)
+    return nir.read(bio)
+
+
+def jdiff(a, b, path="", out=None, limit=12):
+    """paths at which two JSON values differ"""
+    if out is None:
+        out = []
+    if len(out) >= limit:
+        return out
+    if type(a) != type(b):
+        out.append((path, _short(a), _short(b)))
+    elif isinstance(a, dict):
+        for k in sorted(set(a) | set(b)):
+            if k not in a or k not in b:
+                out.append((f"{path}/{k}", _short(a.get(k, "<absent>")), _short(b.get(k, "<absent>"))))
+            else:
+                jdiff(a[k], b[k], f"{path}/{k}", out, limit)
+    elif isinstance(a, list):
+        if len(a) != len(b):
+            out.append((path + "/len", len(a), len(b)))
+        for i, (x, y) in enumerate(zip(a, b)):
+            jdiff(x, y, f"{path}/{i}", out, limit)
+    elif a != b:
+        out.append((path, _short(a), _short(b)))
+    return out
+
+
+def _short(x):
+    s = json.dumps(x, default=str)
+    return s if len(s) < 160 else s[:160] + "..."
